@@ -277,7 +277,15 @@ func c10Build(c *fw.Case) c10Case {
 			"SELECT GLOBAL.VBG(n1) AS v FROM t1",
 			"SELECT GLOBAL.VBG((SELECT n1 FROM t1)) AS v FROM t1",
 			"SELECT SCOPED.VBG(n1) AS v, ONCE.VBG(1) AS o FROM t1",
+			// a pending result stored in a register and awaited through that register
+			"SELECT SETVAR('x', AWAIT(GETVAR('x'))), GETVAR('x') AS y FROM t1",
+			"SELECT GETVAR('x') AS y, SETVAR('x', AWAIT(GETVAR('x'))), SETVAR('z', AWAIT(GETVAR('x'))) FROM dual",
+			"SELECT SETVAR('x', AWAIT(ASYNC.VBG(GETVAR('x')))), AWAIT(GETVAR('x')) AS y FROM t1",
 		})
+		if strings.Contains(cs.sql, "SETVAR") {
+			cs.extra = append(cs.extra, genql.WithVars(map[string]any{}))
+			cs.feats = append(cs.feats, "await.self-reference")
+		}
 		if c.Chance(0.4) {
 			cs.faultK, cs.mode = 1+c.Intn(3), int32(1+c.Intn(4))
 		}
